@@ -20,7 +20,9 @@ round 2 (names with `r2`) showed the agent the round-1 list and asked for differ
 round 3 (`r3`) showed both earlier lists and asked for indirect routes: shared helpers far from the anchored files, state
 carried between calls, feature combinations, configuration-dependent paths; round 4 (`r4`) asked the agent to split the
 statement into clauses, pick clauses no earlier change had attacked and break them the way maintenance does (memoisation keyed
-by too little, pooling, early exits, refactorings, over-broad hardening, swapped decoders). `/verif/regress_seeded.sh` re-applies every kept
+by too little, pooling, early exits, refactorings, over-broad hardening, swapped decoders); round 5 (`r5`) gave the agent a catalogue of mistake classes from
+studies of real Go code (slice aliasing, range / shadowing slips, integer conversions, byte vs rune, operator slips, switch
+slips, nil vs empty, comparators, map order, early returns) and asked for classes not used before. `/verif/regress_seeded.sh` re-applies every kept
 change and re-runs the quick tier of its property, so a later edit of a check cannot silently lose one.
 
 **%d changes kept; %d were missed at first and led to a stronger check** (all are caught now):
